@@ -1,276 +1,4 @@
-(* C13 — the theorems: stack bounds, undo inverts do, redo inverts undo, and the history invariant. *)
-From Coq Require Import ZArith List Bool Lia.
-Import ListNotations.
-From GV Require Import Common.Wire C06.Model C06.Lemmas1 C06.Lemmas2 C06.Lemmas3 C06.Lemmas gen.Gen_command
-  C13.Model C13.Spec C13.Lemmas1 C13.Lemmas2.
-Open Scope Z_scope.
-
-(* ---------- facts about the regenerated constants ---------- *)
-Lemma keep_le_max : (Z.to_nat stack_keep <= Z.to_nat max_undo)%nat.
-Proof. apply Nat.leb_le. vm_compute. reflexivity. Qed.
-
-Lemma keep_pos : (0 < Z.to_nat stack_keep)%nat.
-Proof. apply Nat.ltb_lt. vm_compute. reflexivity. Qed.
-
-Global Opaque stack_keep max_undo.
-
-(* ---------- stack bounds ---------- *)
-Definition bounded (s : sess) : Prop := (length (cmds s) + length (undone s) <= Z.to_nat stack_keep)%nat.
-
-Lemma bounded_sstep : forall s o, bounded s -> bounded (sstep s o).
-Proof.
-  intros s o Hb. unfold bounded in *. destruct o as [c | |]; simpl.
-  - unfold stack_do. destruct (cmd_do c s) as [s1 mm]. simpl.
-    rewrite Nat.add_0_r. apply firstn_le_length.
-  - unfold stack_undo. destruct (cmds s) as [|[c mm] rest] eqn:Hc; [rewrite Hc; exact Hb|].
-    destruct (cmd_undo_stacks c mm (set_undone ((c, mm) :: undone s) (set_cmds rest s))) as [H1 H2].
-    rewrite H1, H2. simpl in *. lia.
-  - unfold stack_redo. destruct (undone s) as [|[c mm] rest] eqn:Hu; [rewrite Hu; exact Hb|].
-    pose proof (cmd_do_stacks c (set_undone rest s)) as [H1 H2].
-    destruct (cmd_do c (set_undone rest s)) as [s1 mm']. simpl in *. rewrite H1, H2. simpl. lia.
-Qed.
-
-Lemma bounded_srun : forall ops s, bounded s -> bounded (srun s ops).
-Proof.
-  unfold srun. induction ops as [|o ops IH]; intros s H; simpl; [exact H|].
-  apply IH. apply bounded_sstep. exact H.
-Qed.
-
-Lemma stack_bounds : forall b ed m ops,
-  let s := srun (start b ed m) ops in
-  (length (cmds s) <= Z.to_nat max_undo)%nat /\
-  (length (cmds s) + length (undone s) <= Z.to_nat max_undo)%nat.
-Proof.
-  intros b ed m ops. cbv zeta.
-  assert (H : bounded (srun (start b ed m) ops)).
-  { apply bounded_srun. unfold bounded. simpl. lia. }
-  unfold bounded in H. pose proof keep_le_max. lia.
-Qed.
-
-Lemma do_clears_redo : forall c s, undone (stack_do c s) = [].
-Proof. intros c s. unfold stack_do. destruct (cmd_do c s) as [s1 mm]. reflexivity. Qed.
-
-(* ---------- observational equalities ---------- *)
-Lemma same_obs_obs_eq : forall a b, same_obs a b -> obs_eq a b.
-Proof.
-  intros a b [H1 H2 H3 H4 H5 H6]. constructor; try assumption.
-  - rewrite <- H2. apply map_ext_in. exact H3.
-  - rewrite H4, H2. reflexivity.
-Qed.
-
-Lemma obs_eq_fields : forall a a', base a' = base a -> edit a' = edit a -> smode a' = smode a ->
-  forall b, obs_eq a b -> obs_eq a' b.
-Proof.
-  intros a a' Hb He Hm b [H1 H2 H3 H4 H5]. constructor; rewrite ?Hb, ?He, ?Hm; assumption.
-Qed.
-
-Lemma obs_eq_sym : forall a b, obs_eq a b -> obs_eq b a.
-Proof.
-  intros a b [H1 H2 H3 H4 H5]. constructor; try (symmetry; assumption).
-  intros d. symmetry. apply H1.
-Qed.
-
-Lemma pos_of_nonneg_in : forall g l, 0 <= pos_of g l -> In g l.
-Proof.
-  intros g l. induction l as [|x l IH]; simpl; intros H.
-  - lia.
-  - destruct (x =? g) eqn:Hx.
-    + left. apply Z.eqb_eq. exact Hx.
-    + right. apply IH. destruct (pos_of g l <? 0) eqn:Hp; [lia|]. apply Z.ltb_ge in Hp. exact Hp.
-Qed.
-
-Lemma pos_of_notin : forall g l, ~ In g l -> pos_of g l = -1.
-Proof.
-  intros g l. induction l as [|x l IH]; simpl; intros H.
-  - reflexivity.
-  - destruct (x =? g) eqn:Hx.
-    + exfalso. apply H. left. apply Z.eqb_eq. exact Hx.
-    + rewrite IH by (intros Hin; apply H; right; exact Hin). reflexivity.
-Qed.
-
-Lemma pos_of_app_fresh : forall g l, ~ In g l -> pos_of g (l ++ [g]) = Z.of_nat (length l).
-Proof.
-  intros g l. induction l as [|x l IH]; simpl; intros H.
-  - rewrite Z.eqb_refl. reflexivity.
-  - destruct (x =? g) eqn:Hx.
-    + exfalso. apply H. left. apply Z.eqb_eq. exact Hx.
-    + rewrite IH by (intros Hin; apply H; right; exact Hin).
-      destruct (Z.of_nat (length l) <? 0) eqn:Hp; [apply Z.ltb_lt in Hp; lia | lia].
-Qed.
-
-Lemma creates_congr : forall ov a b, edit a = edit b -> smode a = smode b -> creates ov a = creates ov b /\ eff_mode ov a = eff_mode ov b.
-Proof. intros ov a b He Hm. unfold creates, eff_mode. rewrite He, Hm. split; reflexivity. Qed.
-
-(* ---------- D: a command run on two states that look the same gives two states that look the same,
-   up to the identity of the group it may create ---------- *)
-Lemma do_congr : forall c a b, same_obs a b -> Core (base a) -> Core (base b) ->
-  obs_eq (fst (cmd_do c a)) (fst (cmd_do c b)).
-Proof.
-  intros c a b Hab HCa HCb. pose proof Hab as [H1 H2 H3 H4 H5 H6]. destruct c as [d | d | e ov].
-  - (* AddData: as undo of RemoveData *)
-    apply same_obs_obs_eq.
-    exact (undo_congr (RemoveData d) (mkMemo [] [] true) a b Hab).
-  - apply same_obs_obs_eq.
-    exact (undo_congr (AddData d) (mkMemo [] [] true) a b Hab).
-  - rewrite !cmd_do_apply. destruct (creates_congr ov a b H4 H5) as [Hcr Hem]. rewrite <- Hcr, <- Hem.
-    destruct (creates ov a); cbn [fst].
-    + (* both create a group; its id may differ *)
-      destruct (new_group_effect (Some e) (base a)) as [A1 [A2 [A3 [A4 [A5 A6]]]]].
-      destruct (new_group_effect (Some e) (base b)) as [B1 [B2 [B3 [B4 [B5 B6]]]]].
-      assert (Hfa : ~ In (next_gid (base a)) (groups (base a))).
-      { intros Hin. apply (gc_gid_fresh _ _ (c_g _ HCa)) in Hin. lia. }
-      assert (Hfb : ~ In (next_gid (base b)) (groups (base b))).
-      { intros Hin. apply (gc_gid_fresh _ _ (c_g _ HCb)) in Hin. lia. }
-      constructor; simpl.
-      * intros x. rewrite A1, B1. apply H1.
-      * rewrite A2, B2. rewrite !map_app. simpl. rewrite A5, B5. f_equal.
-        rewrite <- H2. apply map_ext_in. intros g Hg.
-        assert (Hga : g <> next_gid (base a)) by (intros Heq; subst g; exact (Hfa Hg)).
-        assert (Hgb : g <> next_gid (base b)) by (intros Heq; subst g; rewrite H2 in Hg; exact (Hfb Hg)).
-        unfold gstate. rewrite (A6 g Hga), (B6 g Hgb). apply H3. exact Hg.
-      * rewrite A2, B2. rewrite (pos_of_app_fresh _ _ Hfa), (pos_of_app_fresh _ _ Hfb). rewrite H2. reflexivity.
-      * exact H5.
-      * rewrite A3, B3. exact H6.
-    + (* both combine the same edited groups *)
-      apply same_obs_obs_eq.
-      destruct (combine_frame (eff_mode ov a) e (edit a) (base a)) as [A1 [A2 [A3 A4]]].
-      destruct (combine_frame (eff_mode ov a) e (edit b) (base b)) as [B1 [B2 [B3 B4]]].
-      apply same_obs_build; simpl; try assumption.
-      * intros x. rewrite A1, B1. apply H1.
-      * congruence.
-      * intros g Hg. rewrite A2 in Hg. rewrite <- H4.
-        apply (combine_congr _ _ _ _ _ (fun g => In g (groups (base a)))); [exact H3 | exact Hg].
-      * congruence.
-Qed.
-
-(* ---------- undo inverts do, through the stack ---------- *)
-Lemma firstn_cons_pos : forall (A : Type) n (x : A) l, (0 < n)%nat -> firstn n (x :: l) = x :: firstn (n - 1) l.
-Proof. intros A n x l H. destruct n; [lia|]. simpl. rewrite Nat.sub_0_r. reflexivity. Qed.
-
-Lemma stack_undo_do : forall c s,
-  stack_undo (stack_do c s) =
-  cmd_undo c (snd (cmd_do c s))
-    (set_undone [(c, snd (cmd_do c s))]
-       (set_cmds (firstn (Z.to_nat stack_keep - 1) (cmds s)) (fst (cmd_do c s)))).
-Proof.
-  intros c s. unfold stack_do. pose proof (cmd_do_stacks c s) as [Hc _].
-  destruct (cmd_do c s) as [s1 mm]. simpl in *. unfold stack_undo. simpl.
-  rewrite (firstn_cons_pos _ _ _ _ keep_pos). reflexivity.
-Qed.
-
-Lemma undo_inverts_do : forall c s, Core (base s) ->
-  same_obs (stack_undo (stack_do c s)) s /\ Core (base (stack_undo (stack_do c s))).
-Proof.
-  intros c s HC. rewrite stack_undo_do. split.
-  - eapply same_obs_trans; [| apply (undo_do c s HC)].
-    apply undo_congr. apply same_obs_fields; reflexivity.
-  - apply core_cmd_undo. simpl. apply core_cmd_do. exact HC.
-Qed.
-
-(* ---------- redo inverts undo ---------- *)
-Lemma redo_inverts_undo : forall c s, Core (base s) ->
-  obs_eq (stack_redo (stack_undo (stack_do c s))) (stack_do c s).
-Proof.
-  intros c s HC.
-  pose proof (undo_inverts_do c s HC) as [Hsame Hcore].
-  rewrite stack_undo_do in *.
-  set (mm := snd (cmd_do c s)) in *.
-  set (s2 := cmd_undo c mm _) in *.
-  assert (Hund : undone s2 = [(c, mm)]).
-  { unfold s2. destruct (cmd_undo_stacks c mm (set_undone [(c, mm)]
-        (set_cmds (firstn (Z.to_nat stack_keep - 1) (cmds s)) (fst (cmd_do c s))))) as [_ H]. rewrite H. reflexivity. }
-  unfold stack_redo. rewrite Hund.
-  assert (Hs2' : same_obs (set_undone [] s2) s).
-  { eapply same_obs_trans; [| exact Hsame]. apply same_obs_fields; reflexivity. }
-  pose proof (do_congr c (set_undone [] s2) s Hs2' Hcore HC) as Hd.
-  destruct (cmd_do c (set_undone [] s2)) as [s3 mm3] eqn:E3. cbn [fst] in Hd.
-  unfold stack_do. destruct (cmd_do c s) as [s1 mm1] eqn:E1. cbn [fst] in Hd.
-  eapply obs_eq_fields; [| | | apply obs_eq_sym; eapply obs_eq_fields; [| | | apply obs_eq_sym; exact Hd]]; reflexivity.
-Qed.
-
-(* ---------- the history invariant (Chain is defined in Spec.v) ---------- *)
-Lemma chain_same_obs : forall l s s', Chain l s -> same_obs s' s -> Chain l s'.
-Proof.
-  intros l s s' H Hs. inversion H as [|c mm rest sp s0 HCp Hrest Hmm Hsame]; subst.
-  - constructor.
-  - apply (ch_cons c _ rest sp s'); [exact HCp | exact Hrest | reflexivity | eapply same_obs_trans; eassumption].
-Qed.
-
-Lemma chain_firstn : forall n l s, Chain l s -> Chain (firstn n l) s.
-Proof.
-  induction n as [|n IH]; intros l s H; simpl.
-  - constructor.
-  - inversion H as [|c mm rest sp s0 HCp Hrest Hmm Hsame]; subst; simpl.
-    + constructor.
-    + apply (ch_cons c _ (firstn n rest) sp s); [exact HCp | apply IH; exact Hrest | reflexivity | exact Hsame].
-Qed.
-
-Lemma hist_sstep : forall s o, hist s -> hist (sstep s o).
-Proof.
-  intros s o [HC Hch]. split; [apply core_sstep; exact HC|].
-  destruct o as [c | |]; simpl.
-  - unfold stack_do. destruct (cmd_do c s) as [s1 mm] eqn:E. simpl.
-    apply chain_firstn. apply (ch_cons c mm (cmds s) s).
-    + exact HC.
-    + exact Hch.
-    + rewrite E. reflexivity.
-    + rewrite E. apply same_obs_fields; reflexivity.
-  - unfold stack_undo. destruct (cmds s) as [|[c mm] rest] eqn:Hc; [rewrite Hc; exact Hch|].
-    destruct (cmd_undo_stacks c mm (set_undone ((c, mm) :: undone s) (set_cmds rest s))) as [H1 _].
-    rewrite H1. simpl.
-    inversion Hch as [|c' mm' rest' sp s' HCp Hrest Hmm Hsame]; subst.
-    eapply chain_same_obs; [exact Hrest|].
-    eapply same_obs_trans; [| apply (undo_do c sp HCp)].
-    apply undo_congr. eapply same_obs_trans; [| exact Hsame]. apply same_obs_fields; reflexivity.
-  - unfold stack_redo. destruct (undone s) as [|[c mm] rest] eqn:Hu; [exact Hch|].
-    pose proof (cmd_do_stacks c (set_undone rest s)) as [H1 _].
-    destruct (cmd_do c (set_undone rest s)) as [s1 mm'] eqn:E. simpl in *. rewrite H1. simpl.
-    apply (ch_cons c mm' (cmds s) (set_undone rest s)).
-    + exact HC.
-    + eapply chain_same_obs; [exact Hch | apply same_obs_fields; reflexivity].
-    + rewrite E. reflexivity.
-    + rewrite E. apply same_obs_fields; reflexivity.
-Qed.
-
-Lemma hist_srun : forall ops s, hist s -> hist (srun s ops).
-Proof.
-  unfold srun. induction ops as [|o ops IH]; intros s H; simpl; [exact H|].
-  apply IH. apply hist_sstep. exact H.
-Qed.
-
-Lemma history_chain : forall b ed m ops, Core b ->
-  let s := srun (start b ed m) ops in Core (base s) /\ Chain (cmds s) s.
-Proof.
-  intros b ed m ops HC. apply hist_srun. split; [exact HC | constructor].
-Qed.
-
-(* what Chain gives for the next undo: after ANY history, an undo leads to a state that looks exactly like the one
-   the undone command had found, whatever happened between its do and now *)
-Lemma undo_after_history : forall b ed m ops c mm rest, Core b ->
-  let s := srun (start b ed m) ops in
-  cmds s = (c, mm) :: rest ->
-  exists sp, Core (base sp) /\ Chain rest sp /\ snd (cmd_do c sp) = mm /\
-             same_obs s (fst (cmd_do c sp)) /\ same_obs (stack_undo s) sp.
-Proof.
-  intros b ed m ops c mm rest HC s Hc.
-  destruct (history_chain b ed m ops HC) as [HCs Hch]. fold s in HCs, Hch. rewrite Hc in Hch.
-  inversion Hch as [|c' mm' rest' sp s' HCp Hrest Hmm Hsame]; subst.
-  exists sp. split; [exact HCp|]. split; [exact Hrest|]. split; [reflexivity|]. split; [exact Hsame|].
-  unfold stack_undo. rewrite Hc.
-  eapply same_obs_trans; [| apply (undo_do c sp HCp)].
-  apply undo_congr. eapply same_obs_trans; [| exact Hsame]. apply same_obs_fields; reflexivity.
-Qed.
-
-(* ---------- replay of the stack (no truncation yet): the commands on the stack, replayed from the start state ---------- *)
-(* obs_eq is transitive *)
-Lemma obs_eq_trans : forall a b c, obs_eq a b -> obs_eq b c -> obs_eq a c.
-Proof.
-  intros a b c [H1 H2 H3 H4 H5] [K1 K2 K3 K4 K5]. constructor; try congruence.
-  intros d. rewrite H1. apply K1.
-Qed.
-
-Lemma collection_invariant_through_history : forall pool ncol pre ed m ops,
-  Inv (base (srun (start (run (init pool ncol) pre) ed m) ops)).
-Proof.
-  intros. apply core_inv. apply core_srun. simpl. apply core_run. apply core_init.
-Qed.
+(* C13 — everything Property.v uses: Lemmas1 (frames, Core through the session steps), Lemmas2 (undo after do, congruences),
+   Lemmas3 (stack bounds, undo/redo inverse laws, history chain), Lemmas4 (history replay),
+   Lemmas5 (the stack bookkeeping refines the text translated from command.py; StackProof.v holds that text's own laws). *)
+From GV Require Export C13.Lemmas1 C13.Lemmas2 C13.Lemmas3 C13.Lemmas4 C13.StackProof C13.Lemmas5.
